@@ -65,10 +65,15 @@ func newWorld(r *rand.Rand, o worldOpts) *World {
 	if r.Intn(4) == 0 {
 		// names that differ only in letter case are different names: an undefined food spelled like a
 		// recipe, a basic element spelled like another one
-		if v := caseVariant(w.Recipes[0]); v != w.Recipes[0] {
-			w.Unknown = append(w.Unknown, v)
+		taken := map[string]bool{}
+		for _, n := range all {
+			taken[n] = true
 		}
-		if v := caseVariant(w.Basics[0]); v != w.Basics[0] && nbas > 1 {
+		if v := caseVariant(w.Recipes[0]); !taken[v] {
+			w.Unknown = append(w.Unknown, v)
+			taken[v] = true
+		}
+		if v := caseVariant(w.Basics[0]); !taken[v] && nbas > 1 {
 			w.Basics[nbas-1] = v
 		}
 	}
